@@ -6,7 +6,7 @@
    of the trailing name check when the start statement has no name, startcls(reader) with
    startcls None) and the model's EFuel. *)
 From Coq Require Import List Bool Arith NArith Lia.
-From FV Require Import Scope Engine.
+From FV Require Import Scope Engine StmtError.
 Import ListNotations.
 
 Section Flow.
@@ -91,10 +91,7 @@ Proof.
     destruct (b_labeldo_abort b && _ && _ && _).
     { apply bind_x; [apply lift_x|]. intros. apply bind_x; [apply lift_x|intros; exact I]. }
     match goal with |- context [match ?e1 with Some e => raise e | None => _ end] => destruct e1 as [e1'|] eqn:E1 end.
-    { assert (e1' = ESyntax) as ->.
-      { destruct (b_match_names b && mem (tcls t) (b_name_classes b)); [|discriminate].
-        destruct (end_name (tinfo t)); [|discriminate].
-        destruct (start_name _); [destruct (N.eqb _ _)|]; congruence. }
+    { assert (e1' = ESyntax) as -> by (exact (stmt_error_syntax T _ _ _ _ _ E1)).
       exact P_syntax. }
     destruct (_ && b_match_labels b && _); [apply HC|].
     destruct (match b_end b with Some _ => mem (tcls t) (b_endall b) | None => false end); [|apply HC].
